@@ -94,7 +94,9 @@ var c19oligo = []float64{1e-9, 100e-9, 500e-9, 10e-6, 1e-3}
 var c19na = []float64{1e-3, 50e-3, 350e-3, 1}
 var c19mg = []float64{0, 1.5e-3, 10e-3, 100e-3}
 
-func near(a, b float64) bool { return math.Abs(a-b) <= 1e-6 || (math.IsNaN(a) && math.IsNaN(b)) || a == b }
+func near(a, b float64) bool {
+	return math.Abs(a-b) <= 1e-6 || (math.IsNaN(a) && math.IsNaN(b)) || a == b
+}
 
 func c19seq(r *mc.Recorder, in string, cnt, nt *int64) {
 	up := strings.ToUpper(in)
